@@ -91,6 +91,11 @@ CLAIMED.update({
             'Structural content of the statement on every path of the move/swap mechanisms; value preservation follows from "pointer copied, nothing touched".',
             'Trusts may-effect summaries of opaque callees; steal classification shared with C02 (R02.1).',
             'DESIGN.md section 6 C09'),
+    'C15': ('other', 'iterator typestate over LLVM IR paths with an opaque input iterator; structural generator-loop rule',
+            'Each position of a single-pass range is end-checked, read once and incremented once on every path; stale copies are never used; '
+            'the generator is called exactly once per iteration up to begin + count.',
+            'Trusts loop exploration by typestate repetition; the probe iterator as the model of every input iterator.',
+            'DESIGN.md section 6 C15'),
 })
 
 NOT_APPLICABLE = {
